@@ -269,8 +269,8 @@ def units(tier, seed):
     FULL_GRIDS = tier == 'thorough'
     rnd = random.Random(seed)
     lots = list(LOTS_Q if tier == 'quick' else LOTS_T)
-    for _ in range(1 if tier == 'quick' else 12):
-        lots.append((round(rnd.uniform(20, 60 if tier == 'quick' else 120), 1), round(rnd.uniform(20, 60 if tier == 'quick' else 120), 1)))
+    for _ in range(1 if tier == 'quick' else 8):
+        lots.append((round(rnd.uniform(20, 60 if tier == 'quick' else 90), 1), round(rnd.uniform(20, 60 if tier == 'quick' else 90), 1)))
     F = ['domains.py:square_and_near_square', 'domains.py:rectangular', 'domains.py:bi_rectangular', 'domains.py:bi_rectangle_nested',
          'domains.py:zoned_rectangle_domain', 'domains.py:bi_rectangle_zoned_nested', 'coordinates.py:rectangle', 'coordinates.py:open_rectangle',
          'coordinates.py:c_shape', 'coordinates.py:lop_u', 'coordinates.py:l_shape', 'coordinates.py:zoned_rectangle',
@@ -282,7 +282,9 @@ def units(tier, seed):
             if kind == 'rect':
                 rng = (3.0, 25.0, 25.0) if tier == 'quick' else (2.0, 25.0, 25.0)
             else:
-                rng = (5.0, 10.0, 20.0) if tier == 'quick' else (3.0, 15.0, 25.0)
+                rng = (5.0, 10.0, 20.0) if tier == 'quick' else (4.0, 12.0, 22.0)
+                if tier == 'thorough' and L * W > 6000:
+                    continue            # the number of count regions grows with (L/b_min)(W/b_min): the largest lots only through the rectangle generator
             us.append(Unit('%s_%gx%g' % (kind, L, W), make_fn(kind, L, W, rng=rng), make_replay(kind, L, W, rng), setup, F,
                            '%s generator, land %g x %g m concrete; b_min all reals in [%g,%g], b_max_x, b_max_y all reals in [b_min,%g], at least three rows at the maximum spacing'
                            % (kind, L, W, rng[0], rng[1], rng[2]), AS, max_seconds=2400 if tier == 'thorough' else 700, timeout_ms=60000))
